@@ -940,7 +940,7 @@ template <typename Policy1, typename Policy2,
           typename Type1, typename Type2>
 inline bool
 gt_ext(const Type1& x, const Type2& y) {
-  return lt_ext<Policy1, Policy2>(y, x);
+  return lt_ext<Policy2, Policy1>(y, x);
 }
 
 template <typename Policy1, typename Policy2,
@@ -967,7 +967,7 @@ template <typename Policy1, typename Policy2,
           typename Type1, typename Type2>
 inline bool
 ge_ext(const Type1& x, const Type2& y) {
-  return le_ext<Policy1, Policy2>(y, x);
+  return le_ext<Policy2, Policy1>(y, x);
 }
 
 template <typename Policy1, typename Policy2,
